@@ -4,6 +4,7 @@ import (
 	"bytes"
 	"encoding/binary"
 	"encoding/hex"
+	"encoding/json"
 	"fmt"
 	"strings"
 
@@ -242,6 +243,28 @@ func c11Returned(c *core.Ctx, r *core.RNG) {
 	c.Shape("returned", nid.Type())
 }
 
+// c11JSON decodes a JSON document into the identifier type and returns its bytes.
+func c11JSON(name string, doc []byte) ([]byte, error) {
+	switch name {
+	case "EUI64":
+		var v lorawan.EUI64
+		err := json.Unmarshal(doc, &v)
+		return v[:], err
+	case "DevAddr":
+		var v lorawan.DevAddr
+		err := json.Unmarshal(doc, &v)
+		return v[:], err
+	case "NetID":
+		var v lorawan.NetID
+		err := json.Unmarshal(doc, &v)
+		return v[:], err
+	default:
+		var v lorawan.AES128Key
+		err := json.Unmarshal(doc, &v)
+		return v[:], err
+	}
+}
+
 func c11Representations(c *core.Ctx, r *core.RNG, ic idCodec) {
 	b := r.Bytes(ic.size)
 	switch r.Intn(8) {
@@ -311,7 +334,7 @@ func c11Representations(c *core.Ctx, r *core.RNG, ic idCodec) {
 		bad("scan", "Scan(Value())=%x err=%v", got, err)
 	}
 	// wrong lengths
-	for ln := 0; ln <= 2*ic.size; ln++ {
+	for ln := 0; ln <= 2*ic.size+2; ln++ {
 		if ln == ic.size {
 			continue
 		}
@@ -335,6 +358,9 @@ func c11Representations(c *core.Ctx, r *core.RNG, ic idCodec) {
 		if ln == 2*ic.size {
 			ascii = []byte(hex.EncodeToString(b))
 		}
+		if ln == 2*ic.size+2 {
+			ascii = []byte("0x" + hex.EncodeToString(b)) // the text form with its prefix, handed over as bytes
+		}
 		for _, y := range [][]byte{ascii, make([]byte, ln), bytes.Repeat([]byte{0xff}, ln), bytes.Repeat([]byte{'0'}, ln)} {
 			c.Eval(2)
 			if got, err := ic.unmarshalBin(append([]byte{}, y...)); err == nil {
@@ -353,6 +379,26 @@ func c11Representations(c *core.Ctx, r *core.RNG, ic idCodec) {
 		if err == nil {
 			// "0X.." is not a documented prefix; accept only if it decodes to the same value, anything else must be rejected
 			bad("text-malformed-accepted", "UnmarshalText(%q) accepted as %x", s, got)
+		}
+	}
+	// JSON (the backend interface carries identifiers as JSON strings): the text form inside a JSON string,
+	// also when the peer's encoder escapes characters
+	{
+		plain := hex.EncodeToString(b)
+		esc := ""
+		for i := 0; i < len(plain); i++ {
+			if i%3 == 1 {
+				esc += fmt.Sprintf("\\u%04x", plain[i])
+			} else {
+				esc += string(plain[i])
+			}
+		}
+		for _, doc := range []string{`"` + plain + `"`, `"` + esc + `"`, ` "` + plain + `" `} {
+			c.Eval(1)
+			got, err := c11JSON(ic.name, []byte(doc))
+			if err != nil || !bytes.Equal(got, b) {
+				bad("json-unmarshal", "json.Unmarshal(%s) = %x err=%v", doc, got, err)
+			}
 		}
 	}
 	// an identifier that already holds a value is not damaged by an input that is rejected
